@@ -451,11 +451,12 @@ def _update_axis(
     tail = jnp.exp(jax.scipy.special.logsumexp(fitted_vals * 2)) / (d - k)
     undeflated = jnp.square(jnp.maximum(top_eigs, 0.0))
   else:
-    tail = axis_state.tail * decay + cutoff**2
+    tail = axis_state.tail * options.second_moment_decay + cutoff**2
     # Avoid numerical error from the sqrt computation and from subtracting
     # and re-adding cutoff^2 (mathematically, undeflated == deflated^2 + tail).
     undeflated = (
-        jnp.square(jnp.maximum(top_eigs, 0.0)) + axis_state.tail * decay
+        jnp.square(jnp.maximum(top_eigs, 0.0))
+        + axis_state.tail * options.second_moment_decay
     )
   eigvecs = u[:, :k]
 
